@@ -244,7 +244,7 @@ func vfMine(i int) bool { return i%vfNShards() == vfShard() }
 // rapid's fail files are disabled; the shrunk failing case is captured through rec.Fail.
 func vfRapid(t *testing.T, rec *vfRecord, name string, n int, prop func(*rapid.T)) {
 	t.Helper()
-	seed := vfHash("seed", vfSeed(), vfShard(), name) & 0x7fffffffffffffff
+	seed := vfHash("seed", vfSeed(), vfShard(), name, vfPkg) & 0x7fffffffffffffff
 	if seed == 0 {
 		seed = 1 // 0 means "random" to rapid
 	}
